@@ -53,7 +53,8 @@ Definition read_message_begin (b : bytes) : res (bytes * Z * Z * bytes) :=
     Ok (name, u mod 256, seq, r3)
   else
     (* old-style envelope: readStringBody(size), ReadByte, ReadI32 *)
-    do (name, r2) <- read_n (Z.to_nat size) r1;
+    (* (compared in Z first: a size near 2^31 must not become a unary number) *)
+    do (name, r2) <- (if size <=? zlen r1 then read_n (Z.to_nat size) r1 else Err EEOF);
     do (t, r3) <- read_int 1 r2;
     do (seq, r4) <- read_int 4 r3;
     Ok (name, t, seq, r4).
